@@ -21,7 +21,7 @@ theorem cleanCond_eq (c : NcCell) :
 
 theorem textClean_eq (v : XR) : Gen.Clean.textClean v = textClean (.num v) := by
   unfold Gen.Clean.textClean textClean
-  split <;> simp_all
+  cases v <;> simp [XR.isNan]
 
 /-- NetCDF: a value is missing iff it is masked/fill, NaN, -999 or above 1e30; anything else is kept. -/
 theorem C04_clean (c : NcCell) :
